@@ -1,6 +1,7 @@
 mod c01;
 mod c04;
 mod cjs;
+mod cpair;
 mod csem;
 mod compile;
 mod den;
@@ -23,7 +24,9 @@ fn check_by_id(id: &str) -> Option<Arc<dyn Check>> {
         "C05" => Arc::new(csem::C05),
         "C06" => Arc::new(csem::C06),
         "C07" => Arc::new(csem::C07),
+        "C08" => Arc::new(cpair::C08),
         "C11" => Arc::new(cjs::C11),
+        "C13" => Arc::new(cpair::C13),
         "C12" => Arc::new(cjs::C12),
         _ => return None,
     })
